@@ -18,6 +18,7 @@ def run(chk, tier):
     gcalls.check(chk)
     gcalls.check_required_rules(chk)
     gguard.check_memo_caches(chk)
+    gguard.check_returns(chk)
     ghaz.check_main(chk)
     gtab.check(chk, gen.facts(), which=("keys", "sizes", "classes"))
     # build-level fact: every corpus / build schema (all valid by construction, several on rule boundaries) is accepted
